@@ -91,6 +91,15 @@ CHECKS.update({
    design="4/C14"),
 })
 
+CHECKS.update({
+ "C13": dict(
+   level="model_checking",
+   text="SyncPrims.tla and Atomic.tla are sequential specifications (Mutex, RWMutex, WaitGroup, Once, Map, Pool with outcomes ok / panic / would-block / fatal, one prediction for package sync and one for the single-threaded replacement; atomic cells of 5 integer kinds in both API forms, Bool, Pointer, Value with wrap-around through Bits.tla); TLC enumerates ALL operation histories of bounded length per primitive with the predicted outcome of every step and checks the specifications' invariants. BitsFn.tla (math/bits, validated at 8 bits against integer arithmetic, algebraic sanity at 32/64 bits) and FloatGrid.tla (23 math functions with every documented special case on an exact dyadic grid with IEEE-754 encode/decode) are reference semantics enumerated over boundary grids. Every history is replayed natively against /repo/nosync and (sampled) compiled by the working tree under Node; sync/atomic, math/bits and math scenarios run compiled under Node. Guards: the host's package sync observed on the real scheduler (blocking detected by yielding under GOMAXPROCS(1), fatal errors in child processes) and native Go.",
+   note="Decided only inside the bounds (history length 3-8 quick / 4-10 thorough; mantissas < 2^30 for unary math functions, < 2^14 for Mod/Remainder/Dim). Outside the specification and labelled so in the evidence: a seeded differential run of every overridden math, math/bits and unicode function against native Go, in which only the function classes the property lists are judged (transcendental functions are recorded only). sync.Pool by its documented contract; Map.Range order set-valued.",
+   technique="TLA+ sequential specifications (SyncPrims.tla, Atomic.tla) with exhaustive bounded history enumeration by TLC + TLA+ reference semantics (BitsFn.tla, FloatGrid.tla) over boundary grids, replayed on the real packages natively and compiled",
+   design="4/C13"),
+})
+
 NOT_YET = "check not built yet in this round (planned in DESIGN.md section 9)"
 ALL = ["C%02d" % i for i in range(1, 21)]
 
